@@ -62,6 +62,8 @@ class Transaction:
         # GC-protection markers written for those files
         self._inflight_markers: List[str] = []
         self._inflight_paths: Set[str] = set()
+        # Schemas the data files written by this transaction were written with
+        self._written_schemas: List[Schema] = []
 
         self._lock = threading.RLock()
 
@@ -79,6 +81,7 @@ class Transaction:
             # a Transaction object is reused.
             self._operations = []
             self._written_files = []
+            self._written_schemas = []
             self._inflight_markers = []
             self._inflight_paths = set()
 
@@ -233,6 +236,42 @@ class Transaction:
             sig.add((f.get("name"), type_key, bool(f.get("required", False))))
         return sig
 
+    def _revalidate_written_schemas(self, base_metadata: TableMetadata) -> None:
+        """Commit-time re-check of the schema this transaction's data files
+        were written with.
+
+        append_data() validates against the table AS IT WAS WHEN THE DATA WAS
+        QUEUED. If the table had no persisted schema then (not yet created, or
+        created schema-less) and has acquired one since - a creator racing this
+        first append - committing the file would put a divergent parquet file
+        into the table and every later full scan would fail on concat.
+        """
+        if not self._written_schemas:
+            return
+        table_schema = None
+        for s in base_metadata.schemas or []:
+            if s.schema_id == base_metadata.current_schema_id and s.fields:
+                table_schema = s
+                break
+        if table_schema is None:
+            return
+        def ordered(schema: Schema) -> List[Any]:
+            # Column ORDER matters here: the file is already written, and
+            # concat_tables needs identical Arrow schemas.
+            return [
+                (f.get("name"), json.dumps(f.get("type"), sort_keys=True), bool(f.get("required", False)))
+                for f in schema.fields
+            ]
+
+        expected = ordered(table_schema)
+        for written in self._written_schemas:
+            if ordered(written) != expected:
+                raise ValueError(
+                    "The table has acquired a persisted schema that differs from the schema "
+                    "this transaction's data was written with. Committing it would make table "
+                    f"scans fail. Table fields: {table_schema.fields}; written with: {written.fields}"
+                )
+
     def _validate_schema_against_table(self, schema: Schema) -> Optional[Schema]:
         """Reject appends whose schema diverges from the table's persisted schema.
 
@@ -312,6 +351,7 @@ class Transaction:
 
         # Track written file for cleanup on rollback
         self._written_files.append(file_path)
+        self._written_schemas.append(schema)
 
         # When using append_files, the file path in the DataFile object should be
         # relative to the table for Iceberg-style path resolution
@@ -434,6 +474,7 @@ class Transaction:
                     base_metadata = self.metadata_manager.refresh()
                     if base_metadata is None:
                         raise RuntimeError("No current metadata - table is not initialized")
+                    self._revalidate_written_schemas(base_metadata)
 
                     # Partition queued operations
                     append_files: List[DataFile] = []
